@@ -789,6 +789,8 @@ YR_OBJECT* yr_object_dict_get_item(
 int yr_object_dict_set_item(YR_OBJECT* object, YR_OBJECT* item, const char* key)
 {
   YR_OBJECT_DICTIONARY* dict;
+  YR_DICTIONARY_ITEMS* items;
+  SIZED_STRING* key_copy;
 
   int count;
 
@@ -814,12 +816,14 @@ int yr_object_dict_set_item(YR_OBJECT* object, YR_OBJECT* item, const char* key)
   else if (dict->items->free == 0)
   {
     count = dict->items->used * 2;
-    dict->items = (YR_DICTIONARY_ITEMS*) yr_realloc(
+    items = (YR_DICTIONARY_ITEMS*) yr_realloc(
         dict->items,
         sizeof(YR_DICTIONARY_ITEMS) + count * sizeof(dict->items->objects[0]));
 
-    if (dict->items == NULL)
+    if (items == NULL)
       return ERROR_INSUFFICIENT_MEMORY;
+
+    dict->items = items;
 
     for (int i = dict->items->used; i < count; i++)
     {
@@ -830,9 +834,14 @@ int yr_object_dict_set_item(YR_OBJECT* object, YR_OBJECT* item, const char* key)
     dict->items->free = dict->items->used;
   }
 
+  key_copy = ss_new(key);
+
+  if (key_copy == NULL)
+    return ERROR_INSUFFICIENT_MEMORY;
+
   item->parent = object;
 
-  dict->items->objects[dict->items->used].key = ss_new(key);
+  dict->items->objects[dict->items->used].key = key_copy;
   dict->items->objects[dict->items->used].obj = item;
 
   dict->items->used++;
